@@ -2,8 +2,9 @@
    (strings) -> canonical result string. *)
 From Coq Require Import String.
 From PX.Lib Require Import Base PyStr Regex.
-From PX.Model Require Import Show Validation.
-From PX.Spec Require C13_dec.
+From PX.Lib Require Import PyInt.
+From PX.Model Require Import Show Validation Path Segment Syntax.
+From PX.Spec Require C13_dec C14_spec.
 
 Definition unit_validation (args : list str) : str :=
   match args with
@@ -17,6 +18,123 @@ Definition unit_ctl (args : list str) : str :=
   | _ => sl "?args"
   end.
 
+(* ---- path ---- *)
+Definition BAR : ascii := "|"%char.
+Definition COMMA : ascii := ","%char.
+
+Definition show_path (p : xpath) : str :=
+  sep BAR [show_bool (relative p);
+           sep COMMA (map show_hex (loop_list p));
+           show_opt show_hex (seg_id p);
+           show_opt show_hex (id_val p);
+           show_opt show_N (ele_idx p);
+           show_opt show_N (subele_idx p);
+           show_hex (format_path p);
+           show_hex (format_refdes p);
+           show_bool (path_empty p)].
+
+Definition unit_path (args : list str) : str :=
+  match args with
+  | [s] => show_result show_path (parse_path s)
+  | [a; b] => (* equality of two parsed paths *)
+      show_result (fun x => x)
+        (do pa <- parse_path a; do pb <- parse_path b; Ok (show_bool (path_eqb pa pb)))
+  | _ => sl "?args"
+  end.
+
+Definition unit_child_path (args : list str) : str :=
+  match args with
+  | [a; b] => show_result show_bool (do pa <- parse_path a; Ok (is_child_path pa b))
+  | _ => sl "?args"
+  end.
+
+(* ---- segment ---- *)
+Definition mk_delims (s : str) : delims :=
+  match s with
+  | [a; b; c] => {| seg_term := a; ele_term := b; subele_term := c |}
+  | _ => {| seg_term := "~"%char; ele_term := "*"%char; subele_term := ":"%char |}
+  end.
+
+Definition US : ascii := ascii_of_nat 31.
+
+(* one op: returns the printed result and the (possibly updated) segment *)
+Definition seg_op (d : delims) (sg : seg) (op : str) : str * seg :=
+  match op with
+  | c :: rest =>
+      if Ascii.eqb c "G"%char then (show_result (show_opt show_hex) (seg_get_value d sg rest), sg)
+      else if Ascii.eqb c "S"%char then
+        match split1 US rest with
+        | Some (rd, v) => match seg_set d sg rd v with
+                          | Ok sg' => (sl "ok", sg')
+                          | Raise e => (show_exn e, sg)
+                          end
+        | None => (sl "?op", sg)
+        end
+      else if Ascii.eqb c "F"%char then (show_hex (format_seg d sg), sg)
+      else if Ascii.eqb c "L"%char then (show_nat (seg_len sg), sg)
+      else if Ascii.eqb c "E"%char then (show_bool (seg_empty sg), sg)
+      else if Ascii.eqb c "V"%char then (show_bool (seg_id_valid sg), sg)
+      else if Ascii.eqb c "C"%char then (sl "ok", seg_copy d sg)
+      else if Ascii.eqb c "I"%char then (show_opt show_hex (sid sg), sg)
+      else (sl "?op", sg)
+  | [] => (sl "?op", sg)
+  end.
+
+Fixpoint seg_ops (d : delims) (sg : seg) (ops : list str) : list str :=
+  match ops with
+  | [] => []
+  | op :: ops' => let (r, sg') := seg_op d sg op in r :: seg_ops d sg' ops'
+  end.
+
+Definition unit_segment (args : list str) : str :=
+  match args with
+  | dl :: seg_str :: ops => let d := mk_delims dl in sep BAR (seg_ops d (parse_seg d seg_str) ops)
+  | _ => sl "?args"
+  end.
+
+(* ---- syntax ---- *)
+Definition unit_syntax (args : list str) : str :=
+  match args with
+  | [dl; seg_str; [code]; idxs] =>
+      let d := mk_delims dl in
+      show_result show_bool (is_syntax_valid d (parse_seg d seg_str) code
+                               (map dec_val (match idxs with [] => [] | _ => split COMMA idxs end)))
+  | _ => sl "?args"
+  end.
+
+Definition unit_split_syntax (args : list str) : str :=
+  match args with
+  | [s] => show_result (show_opt (fun p => fst p :: COMMA :: sep COMMA (map show_Z (snd p)))) (split_syntax s)
+  | _ => sl "?args"
+  end.
+
+(* ---- Python runtime models ---- *)
+Definition unit_pyint (args : list str) : str :=
+  match args with
+  | [s] => show_opt show_Z (py_int s)
+  | _ => sl "?args"
+  end.
+
+Definition unit_pystr (args : list str) : str :=
+  match args with
+  | [op; a] =>
+      if str_eqb op (sl "lstrip") then show_hex (lstrip_ws a)
+      else if str_eqb op (sl "rstrip") then show_hex (rstrip_ws a)
+      else if str_eqb op (sl "strip") then show_hex (strip_ws a)
+      else if str_eqb op (sl "lstripnl") then show_hex (lstrip_set [ascii_of_nat 10; ascii_of_nat 13] a)
+      else sl "?op"
+  | [op; a; [c]] =>
+      if str_eqb op (sl "split") then sep COMMA (map show_hex (split c a))
+      else if str_eqb op (sl "find") then show_opt show_nat (find c a)
+      else if str_eqb op (sl "count") then show_nat (count_char c a)
+      else sl "?op"
+  | [op; a; b; c] =>
+      if str_eqb op (sl "replace") then show_hex (replace b c a)
+      else if str_eqb op (sl "lt") then show_bool (str_ltb a b)
+      else sl "?op"
+  | _ => sl "?args"
+  end.
+
 (* the specification's own decision, used as the oracle on the implementation *)
 Definition unit_c13_spec (args : list str) : str :=
   match args with
@@ -24,8 +142,23 @@ Definition unit_c13_spec (args : list str) : str :=
   | _ => sl "?args"
   end.
 
+Definition unit_c14_spec (args : list str) : str :=
+  match args with
+  | [[code]; bits] => show_bool (C14_spec.violated code (map (fun c => Ascii.eqb c "1"%char) bits))
+  | [[code]] => show_bool (C14_spec.violated code [])
+  | _ => sl "?args"
+  end.
+
 Definition dispatch (unit : str) (args : list str) : str :=
   if str_eqb unit (sl "validation") then unit_validation args
   else if str_eqb unit (sl "ctl") then unit_ctl args
   else if str_eqb unit (sl "c13_spec") then unit_c13_spec args
+  else if str_eqb unit (sl "c14_spec") then unit_c14_spec args
+  else if str_eqb unit (sl "path") then unit_path args
+  else if str_eqb unit (sl "child_path") then unit_child_path args
+  else if str_eqb unit (sl "segment") then unit_segment args
+  else if str_eqb unit (sl "syntax") then unit_syntax args
+  else if str_eqb unit (sl "split_syntax") then unit_split_syntax args
+  else if str_eqb unit (sl "pyint") then unit_pyint args
+  else if str_eqb unit (sl "pystr") then unit_pystr args
   else sl "?unit".
